@@ -35,6 +35,8 @@ BUILT = {
          "trusted: link tag and client/server pairing; with zero-length CIDs one connection per endpoint address pair; live stale-ID probes only for generators with >= 2^48 values"),
  "C10": ("codec", "enumeration plus proptest over the verif-hooks codec wrappers: varints (all 1/2-byte values, boundary-dense 4/8-byte), packet-number truncation/expansion vs RFC 9000 A.2/A.3 reference, frames of all 24 kinds, headers/coalesced packets, transport parameters, tokens (AES-GCM and SimCrypto keys), hashed CIDs: decode(encode(x)) == x, differential agreement with the independent codec wire.rs in both directions, byte-equality of encoders, close frames fit their budget; totality: arbitrary bytes, mutations and every prefix of valid encodings through every decoder without panic or out-of-bounds, accept => re-encode fixpoint",
          "trusted: independent reference codec wire.rs (checked against itself); RFC-strictness disagreements on transport parameters (non-minimal integers refused; slack bytes in two parameters accepted) are observations, not violations of C10 as stated"),
+ "C17": ("simnet", "two consecutive connections of one client in one world (the first provisions the SimCrypto ticket or the rustls session and the remembered parameters); the second starts a generated early workload before Connected (streams of both directions, any write sizes up to the remembered credit, finishes, resets, datagrams, more opens than credit, window changes) against a server that accepts or rejects early data, with or without Retry, with late accept (buffered early packets, also beyond incoming_buffer_size), equal/larger/smaller new parameters and generated loss/duplication/reordering, plus an exhaustive enumeration of deliver/drop/duplicate/delay over the first 8 client datagrams; oracles: accepted: every early byte exactly once at its offset, early datagrams at most once, accepted_0rtt(); rejected: no early content (distinct content key) at the server application, early handles report closed, open() restarts at index 0, the wire credit ledger restarted from the new parameters is respected from offset 0, final outcome equals a twin without an early attempt; accept with reduced limits ends in a client error",
+         "trusted: harness application model; SimCrypto in 92% of cases, real rustls 0-RTT in 8%; outcome-level twin comparison"),
  "C18": ("asyncsim", "the real quinn crate on a harness Runtime (single-threaded deterministic executor, virtual timers, in-memory UDP with generated faults, GSO/GRO batching, send blocking): generated programs of 1-3 application tasks per side over 1-2 connections using every awaited operation with generated cancellation plans and handle drops, scheduled by generated scheduler bytes; oracles: no lost wakeup (spurious re-poll / fresh future at every idle point must not be ready), stuck-operation and livelock bounds in virtual time, byte-exact integrity and explained terminal results, cancel-safety through the integrity bookkeeping, implicit finish/stop/close on handle drop delivered within 3 s virtual on loss-free worlds, driver tasks terminate, no wake into a completed application task",
          "trusted: executor/network model (asyncsim.rs); single-threaded interleavings only (no true parallelism, tokio/smol adapters not run); SimCrypto; behaviours D2, D4, D5, D8 of notes/c18-NOTES.md are tolerated (documented semantics), D7 is C08's known finding"),
  "C19": ("udp", "generated Transmits over real loopback sockets through quinn-udp's public API (fresh socket pair per scenario): exhaustive enumeration of 10 608 option combinations (6 address families/bindings incl. dual-stack and v4-mapped, every ECN codepoint and none, explicit source address or none in v4 and v6 form, send shapes, try_send/send, receive buffer shapes) plus proptest over payload lengths 1..max UDP payload, segment sizes and counts up to max_gso_segments() with short last segment, 1..BATCH_SIZE+4 receive buffers; oracle: RecvMeta.len cut by stride equals the transmitted segments byte for byte, ECN, source address/port and destination address as described, stride/len/buffer bounds with canary bytes behind every buffer, nothing extra arrives, Ok implies arrival; the fallback path is entered through a kernel-rejected 300-segment transmit (max_gso_segments drops to 1, plain sends complete, unmerged, untruncated)",
